@@ -410,6 +410,36 @@ fn foreign_listing(path: &str) -> i32 {
     }
 }
 
+/// c10_ts_infix_short_name: TimestampsDirect + append in a directory that holds a family-prefixed
+/// file with a short infix (b_r12.log): the first write must not panic.
+fn ts_listing_short_name(_vals: &[Vec<u8>]) -> i32 {
+    use flexi_logger::writers::FileLogWriter;
+    use flexi_logger::{Cleanup, Criterion, FileSpec, Naming};
+    let dir = std::env::temp_dir().join(format!("verif_replay_ts_{}", std::process::id()));
+    let _ = std::fs::remove_dir_all(&dir);
+    std::fs::create_dir_all(&dir).unwrap();
+    std::fs::write(dir.join("b_r12.log"), b"some other file").unwrap();
+    let dir2 = dir.clone();
+    let r = std::panic::catch_unwind(move || {
+        let flw = FileLogWriter::builder(FileSpec::default().directory(&dir2).basename("b").suppress_timestamp())
+            .rotate(Criterion::Size(1_000_000), Naming::TimestampsDirect, Cleanup::Never)
+            .append()
+            .try_build()
+            .expect("build");
+        let mut now = DeferredNow::new();
+        flw.write(&mut now, &log::Record::builder().level(Level::Info).target("t").args(format_args!("x")).build()).unwrap();
+        flw.shutdown();
+    });
+    let _ = std::fs::remove_dir_all(&dir);
+    if r.is_err() {
+        println!("REPRODUCED: the first write panicked (TimestampsDirect + append, directory contains b_r12.log)");
+        1
+    } else {
+        println!("no panic");
+        0
+    }
+}
+
 fn main() {
     let args: Vec<String> = std::env::args().collect();
     if args.len() < 3 {
@@ -424,6 +454,7 @@ fn main() {
         "rejected_push_then_pop" => rejected_push_then_pop(&vals),
         "highest_index_gz" => highest_index_gz(&vals),
         "foreign_listing" => foreign_listing(&args[2]),
+        "ts_listing_short_name" => ts_listing_short_name(&vals),
         other => {
             eprintln!("unknown replayer {other}");
             3
